@@ -611,7 +611,7 @@ func TestC04(t *testing.T) {
 	lap("1")
 	// (1b) systematic small scope, one key, every setup: histories that keep using the view after a
 	// Commit of it and/or contain ops during which the parent state fails its 1st / 2nd / every read
-	L2 := r.N(3, 5)
+	L2 := r.N(3, 4)
 	alphabet := []c04Op{
 		{Kind: "put", Val: "A"}, {Kind: "put", Val: "B"}, {Kind: "del"}, {Kind: "commit"},
 		{Kind: "put", Val: "B", Fault: 1}, {Kind: "put", Val: "B", Fault: 2},
@@ -674,7 +674,7 @@ func TestC04(t *testing.T) {
 	lap("1c")
 	// (2) random multi-key, multi-view histories
 	rng := r.Rand("random")
-	n := r.N(60000, 1500000)
+	n := r.N(60000, 600000)
 	for i := 0; i < n && r.Violations() < 20; i++ {
 		c := c04Case{Base: map[string]string{}, Pending: map[string]string{}}
 		for j := range c04Keys {
@@ -715,7 +715,7 @@ func TestC04(t *testing.T) {
 	// (3) random multi-key, multi-view histories with mid-view commits, views dropped without commit,
 	// parent-state faults during ops and views with restricted per-key permissions
 	rng = r.Rand("random-ext")
-	n = r.N(40000, 1000000)
+	n = r.N(40000, 400000)
 	permChoices := []state.Permissions{state.All, state.All, state.Write, state.Allocate, state.Read, state.None}
 	for i := 0; i < n && r.Violations() < 20; i++ {
 		c := c04Case{Base: map[string]string{}, Pending: map[string]string{}}
